@@ -7,10 +7,14 @@
  * the same destination.  The presentations differ only in what compute_image_info / analyze_extent /
  * optimize_operator / mask elision / fast-path choice make of them.
  *
- * Precision classes (statement: "bit-identically whenever both variants are evaluated at the same precision"):
+ * Precision classes (statement: "bit-identically whenever both variants are evaluated at the same precision"), see c09_pair_policy():
  *   P1  r5g6b5 pixels enter the float pipeline (operators that need division) as v/31, v/63, the 8888 presentations
- *       as byte/255: different input values, compared within 2 steps instead of exactly.
- *   P2  see c09_pair_policy(): decided from the analysis of disagreements, documented there.
+ *       as byte/255: different input values, compared within 2 steps instead of exactly; not compared for the 4 HSL operators.
+ *   P2  SATURATE with a visibly opaque source runs as OVER_REVERSE in 8 bits, with an a8r8g8b8/a8/a1 presentation as SATURATE in float: 1-2 steps.
+ *   P3  float pipeline: interpolated constant 3x3 image vs solid / 1x1 (no interpolation): float rounding noise, 1 step.
+ * Everything else - in particular every Porter-Duff/ADD and separable-blend operator, every x8r8g8b8 / a8r8g8b8(255) / explicit-border pair
+ * outside P2 - is compared bit for bit.
+ * Known finding (key c09-wide-masked-perpixel-fetch-skips-pixels): float pipeline + real mask + per-pixel bits fetcher loses source pixels.
  * Non-vacuity is measured, not assumed: a link-time wrapper around _pixman_implementation_lookup_composite records the
  * operator and flags the library really dispatched on; a scenario counts as non-trivial only if two compared
  * presentations were dispatched differently (other operator, mask elided, other IS_OPAQUE bits) and the destination
@@ -56,7 +60,7 @@ void __wrap__pixman_implementation_lookup_composite(pixman_implementation_t *top
 /* ------------------------------------------------------------------ alphabets */
 #define SW 3
 #define SH 3
-#define DW 9
+#define DW 21
 #define DH 8
 #define DX 1
 #define DY 1
@@ -92,10 +96,11 @@ static const xf_t XF[] = {
 typedef struct { int sx, sy, w, h; } rq_t;
 static const rq_t RQ[] = {
     { 0, 0, 3, 3 }, { 0, 0, 1, 1 }, { 0, 0, 2, 2 }, { 1, 1, 4, 4 }, { 0, 0, 6, 6 }, { -1, -2, 7, 7 }, { 1, 1, 1, 1 },
+    { -1, 0, 19, 2 },      /* wide: reaches the vector loops of the SIMD paths */
     /* thorough only */
-    { 2, 0, 3, 2 }, { -3, 0, 5, 1 }, { 0, 2, 1, 5 }, { 0, 0, 7, 1 },
+    { 2, 0, 3, 2 }, { -3, 0, 5, 1 }, { 0, 2, 1, 5 }, { 0, 0, 7, 1 }, { 0, 1, 20, 3 }, { 1, 0, 17, 1 },
 };
-#define NRQ_Q 7
+#define NRQ_Q 8
 #define NRQ_T ((int)(sizeof RQ / sizeof RQ[0]))
 
 static const pixman_repeat_t REP[4] = { PIXMAN_REPEAT_NONE, PIXMAN_REPEAT_NORMAL, PIXMAN_REPEAT_PAD, PIXMAN_REPEAT_REFLECT };
@@ -559,7 +564,7 @@ static void run_scenario(const scen_t *s)
         vf_outcome(h);
         if (vf_want_sample() && dec_differ && changed && s->rq == 5 && (s->op == PIXMAN_OP_OVER || s->op == PIXMAN_OP_ATOP || s->op == PIXMAN_OP_SATURATE || s->op == PIXMAN_OP_IN_REVERSE)) {
             describe(s, desc, sizeof desc);
-            char list[300]; size_t l = 0; list[0] = 0;
+            char list[520]; size_t l = 0; list[0] = 0;
             for (int k = 0; k < np && l + 60 < sizeof list; k++) if (role_none_or_conv_ok[k]) l += snprintf(list + l, sizeof list - l, "%s'%s'->%s", l ? ", " : "", P[k].name, P[k].dec_valid ? rc_op_name(P[k].dec_op) : "(empty)");
             vf_sample("%s: %d presentations compared, dispatched as {%s}; all destinations equal", desc, compared + 1, list);
         }
@@ -628,7 +633,7 @@ int main(int argc, char **argv)
     static char bounds[700];
     snprintf(bounds, sizeof bounds, "53 operators x 3 roles x 2 contents (3x3 of nine 565-representable opaque colours | constant; masks: unified | component-alpha white) x %d context image sets "
              "(translucent / opaque / r5g6b5 / a8 partners, with and without masks) x %d transforms x 4 repeats x %d filters x %d request rectangles (inside, bilinear-covered, nearest-covered only, "
-             "partly and wholly outside the 3x3 source) x %d configurations = %llu scenarios, up to 11 presentations each; destination 9x8",
+             "partly and wholly outside the 3x3 source, up to 20 pixels wide) x %d configurations = %llu scenarios, up to 11 presentations each; destination 21x8",
              c.dims[4], c.dims[3], c.dims[1], c.dims[0], ncfg, (unsigned long long)N);
     vf_bounds = bounds;
     if (!vf_replaying()) printf("C09 coverage: %s\n", vf->extra_json);
